@@ -39,7 +39,7 @@ NoDup(c) == Cardinality(ToSet(c.nondust)) = Len(c.nondust) /\ Cardinality(ToSet(
 TraceInit ==
   /\ l = 1 /\ nodeOf = <<>> /\ saved = <<>> /\ everRAA = <<>> /\ projB = <<>>
   /\ fw = [adds |-> {}, downFul |-> {}, upClaimed |-> {}, settledNow |-> {}, base0 |-> <<>>, pol |-> <<>>,
-           shut |-> {}, closeFee |-> <<>>, newInfl |-> {}]
+           shut |-> {}, closeFee |-> <<>>, newInfl |-> {}, crashed |-> {}, liveAtCrash |-> {}]
   /\ par = <<>> /\ cnt = <<>> /\ hs = <<>> /\ fees = <<>> /\ feeBase = <<>> /\ base = <<>>
   /\ link = <<>> /\ redo = <<>> /\ lastCS = <<>> /\ order = <<>> /\ pts = <<>> /\ mon = <<>>
   /\ ownExp = <<>>
@@ -72,7 +72,7 @@ TOpen ==
         /\ saved' = <<>> /\ projB' = <<>>
         /\ fw' = [adds |-> {}, downFul |-> {}, upClaimed |-> {}, settledNow |-> {},
                    base0 |-> [e \in E |-> IF e[2] = 1 THEN cs[ch(e[1])].bal_a_msat ELSE cs[ch(e[1])].bal_b_msat],
-                   pol |-> R.policy, shut |-> {}, closeFee |-> [c \in C |-> 0], newInfl |-> {}]
+                   pol |-> R.policy, shut |-> {}, closeFee |-> [c \in C |-> 0], newInfl |-> {}, crashed |-> {}, liveAtCrash |-> {}]
 
 \* not part of the commitment protocol; `warning` / `disconnect_peer` ask the transport to drop the
 \* peer (the harness then disconnects, as PeerManager would) -- an `error` is never acceptable
@@ -222,7 +222,10 @@ MonIds == [e \in EPsOf(R.node) |->
 PeersOf(n) == {Peer(e) : e \in EPsOf(n)}
 TCrash ==
   /\ IsEvent("crash")
-  /\ UNCHANGED Aux
+  /\ UNCHANGED <<nodeOf, saved, everRAA, projB>>
+  /\ fw' = [fw EXCEPT !.crashed = @ \cup {R.node},
+                       !.liveAtCrash = {p \in @ : p[1] # R.node} \cup
+                          {<<R.node, x.hash>> : x \in UNION {{y \in hs[e] : y.dir = "out" /\ MonIds[e] >= mon[e].last} : e \in {z \in EPsOf(R.node) : ~Closed(z)}}}]
   /\ IF <<R.node, R.mgr>> \in DOMAIN saved
      THEN Restart(EPsOf(R.node), PeersOf(R.node), saved[<<R.node, R.mgr>>], MonIds)
      ELSE \* the snapshot taken right after channel open (k = 0): nothing had happened yet
@@ -267,9 +270,14 @@ TEvent ==
      ELSE /\ UNCHANGED cvars
           /\ R.kind = "ChannelClosed" => G1(Closed(EP(R.chan, R.node)))
   /\ R.kind = "PaymentSent" => R.preimage_ok
-  \* a payment whose preimage this node has been given (update_fulfill_htlc delivered to it) is never
-  \* reported failed -- in particular not after a restart from stale state (C10 / C03 truthfulness)
-  /\ R.kind = "PaymentFailed" => G10(<<R.node, R.hash>> \notin fw.downFul)
+  \* A payment whose preimage this node has been given (update_fulfill_htlc delivered to it) is not
+  \* reported failed.  After a restart from a stale ChannelManager the library documents one rare
+  \* exception (PaymentFailed after a *completed* PaymentSent, to be ignored by the user): so after a
+  \* crash only payments whose HTLC was still held by the (complete) monitor at the crash are judged --
+  \* the monitor knows the claim and the restarted node must resolve them as sent (C10 / C03).
+  /\ R.kind = "PaymentFailed" =>
+        G10(<<R.node, R.hash>> \in fw.downFul =>
+              (R.node \in fw.crashed /\ <<R.node, R.hash>> \notin fw.liveAtCrash))
 
 TProj ==
   /\ IsEvent("proj")
